@@ -11,7 +11,7 @@ import json
 from ..core import register_machine, Violation
 from ..seams import CTX, HarnessError
 from ..util import cjson, h64, exc_class
-from .base import FormatMachine, Slot, VALID, INVALID, UNSPEC, first_diff, diff_key
+from .base import FormatMachine, Slot, VALID, INVALID, UNSPEC, first_diff, diff_key, dec
 from .ci import compose_validity, COMPOSE_FIELDS
 from .im import norm_compose, observe_compose, rpm_arches
 
@@ -119,8 +119,8 @@ class ManifestMachine(FormatMachine):
         s = self.slot(op)
         if s is None:
             return "noop"
-        setattr(s.obj.compose, op["field"], op["value"])
-        s.model["compose"][op["field"]] = op["value"]
+        setattr(s.obj.compose, op["field"], dec(op["value"]))
+        s.model["compose"][op["field"]] = dec(op["value"])
         return "ok"
 
     # expectation: ("ok", new_payload) | ("fail", why) | (UNSPEC, why)
